@@ -139,7 +139,10 @@ def _worker_chunk(args):
     prop = load_prop(prop_name)
     out = []
     for i in idxs:
-        out.append(run_index(prop, verif_seed, i, keep_plan=(i in keep)))
+        r = run_index(prop, verif_seed, i, keep_plan=(i in keep))
+        out.append(r)
+        if r.error and 'wall cap' in r.error:
+            break           # do not spend the rest of the chunk on a tree that hangs
     return out
 
 
